@@ -8,14 +8,14 @@ max_size = 10**6
 
 
 def max_pair_coverage(array1: npt.NDArray[np.int32], array2: npt.NDArray[np.int32]) -> float:
-    def hash_pair(el1: np.int32, el2: np.int32):
-        return (el1 * 1471343 - el2) % max_size
+    # exact count of each (value1, value2) pair: map a pair to a unique 64-bit key
+    first = np.asarray(array1).astype(np.int64)
+    second = np.asarray(array2).astype(np.int64)
+    second = second - second.min()
+    pair_keys = first * (second.max() + 1) + second
 
-    counts = np.zeros(max_size, dtype=np.int32)
-    tot_len = len(array1)
-    for i in range(tot_len):
-        identifier = hash_pair(array1[i], array2[i])
-        counts[identifier] += 1
+    _, counts = np.unique(pair_keys, return_counts=True)
+    tot_len = len(first)
 
     return np.max(counts) / tot_len
 
